@@ -217,13 +217,45 @@ def main(tier_):
         v.violation(dict(check="backend-equivalence", family="unprivileged", op="final-tree"), "C04: after the operations of the unprivileged caller the two backends left different trees: kernel-only %s, emulated-only %s" % (
             [x for x in pres["kernel"][1] if x not in pres["emulated"][1]][:4], [x for x in pres["emulated"][1] if x not in pres["kernel"][1]][:4]), {})
     stats["perm_outcomes"] = dict(outc)
+    # (g) the root is "/" of the mount namespace (the host tree, read-only lookups): '..' at the real root, procfs / sysfs /
+    #     devtmpfs below the root, absolute links into the root.  Library (both backends) == raw openat2 in the same process.
+    #     (magic-links whose readlink text is not a path -- pipe:[n], socket:[n] -- are outside the quantified trees)
+    hpaths = ["etc", "etc/passwd", "../../etc/passwd", "proc/..", "..", "/", "etc/../..", "usr/bin/../..", "dev/null", "proc/self", "proc/self/..", "proc/thread-self/../..", "proc/mounts",
+              "proc/net", "proc/self/status", "nonexistent-entry", "etc/passwd/", "etc/passwd/..", "proc/self/cwd", "proc/self/exe", "proc/self/root/etc", "sys/..", "dev/shm/..", "dev/pts/../null",
+              "proc/sys/kernel/../fs", "//etc//.//passwd", "proc/self/task/../status", "dev/null/.."]
+    hcalls = []
+    for hp in hpaths:
+        hcalls += [dict(op="resolve", path=hp), dict(op="kopen", path=hp, oflags=O["PATH"]), dict(op="resolve", path=hp, nofollow=True), dict(op="kopen", path=hp, oflags=O["PATH"] | O["NOFOLLOW"]),
+                   dict(op="open", path=hp, oflags=O["RDONLY"] | O["NONBLOCK"]), dict(op="kopen", path=hp, oflags=O["RDONLY"] | O["NONBLOCK"])]
+    hid = lambda x: (lambda o: o if o[0] != "ok" else ("ok", x.get("rawdev"), x.get("rawino"), x.get("ft"), (x.get("fl") or 0) & MASK))(lib_outcome(x))
+    for bname, feat in rootops_static.FEATS:
+        # the raw openat2 reference needs the syscall: the "emulated" worker keeps it away from the library only by ... the
+        # seccomp mask, so its reference answers come from the kernel-backend worker (same host tree; per-process procfs
+        # entries are compared by path class, see below)
+        r = run_pv([dict(id="hostroot|" + bname, tree=[], feat=feat, trace=False, root_override="/", calls=hcalls)], jobs=1, tag="C04h")[0]
+        if r.get("status") != "ok" or "results" not in r["out"][0]:
+            raise ToolError("host-root case failed: %s" % json.dumps(r)[:300])
+        rs = r["out"][0]["results"]
+        if bname == "kernel":
+            href = [hid(x) for x in rs]
+        for ci in range(0, len(hcalls), 2):
+            call, got = hcalls[ci], hid(rs[ci])
+            want = href[ci + 1]
+            perproc = "proc/self" in call["path"] or "proc/thread-self" in call["path"] or call["path"] in ("proc/mounts", "proc/net")
+            if perproc and got[0] == "ok" and want[0] == "ok":
+                got, want = (got[0], got[1], got[3], got[4]), (want[0], want[1], want[3], want[4])      # inode numbers of /proc/<pid> differ between the two workers
+            stats["hostroot_cases"] += 1
+            if got != want:
+                v.violation(dict(check="backend-equivalence", family="host-root", op=call["op"], path=call["path"], backend=bname, got=list(got), want=list(want)),
+                            "C04/%s(%r%s) with the root \"/\" [%s backend]: %s; raw openat2(RESOLVE_IN_ROOT) gives %s" % (call["op"], call["path"], ", nofollow" if call.get("nofollow") else "", bname, got, want),
+                            dict(id="replay", tree=[], feat=feat, trace=False, root_override="/", calls=[call]))
     if rres["kernel"][1] != rres["emulated"][1]:
         v.violation(dict(check="backend-equivalence", family="raw-bytes", op="final-tree"), "C04: after the operations on paths with raw bytes the two backends left different trees: kernel %s, emulated %s" % (
             [x for x in rres["kernel"][1] if x not in rres["emulated"][1]][:4], [x for x in rres["emulated"][1] if x not in rres["kernel"][1]][:4]), {})
     if nres["kernel"][1] != nres["emulated"][1]:
         v.violation(dict(check="backend-equivalence", family="nul-byte", op="final-tree"), "C04: after the operations with NUL bytes in their paths the two backends left different trees", {})
     rc = v.finish()
-    cov = dict(unprivileged_cases=stats["perm_cases"], unprivileged_outcomes=stats.get("perm_outcomes"), nul_byte_cases=stats["nul_cases"], raw_byte_cases=stats["raw_byte_cases"], states=cova["states"] + data["gen"]["distinct"], transitions=cova["transitions"] + data["gen"]["states"],
+    cov = dict(host_root_cases=stats["hostroot_cases"], unprivileged_cases=stats["perm_cases"], unprivileged_outcomes=stats.get("perm_outcomes"), nul_byte_cases=stats["nul_cases"], raw_byte_cases=stats["raw_byte_cases"], states=cova["states"] + data["gen"]["distinct"], transitions=cova["transitions"] + data["gen"]["states"],
                traces_validated_against_impl=stats["lookup_cases"] + stats["mutation_cases"] + stats["mkrm_cases"] + stats["lattice_cases"], samples=samples or cova["samples"][:2],
                evaluations=2 * (stats["lookup_cases"] + stats["mutation_cases"] + stats["mkrm_cases"] + stats["lattice_cases"]),
                distinct_nontrivial=stats["mutation_cases"] + stats["mkrm_cases"] + stats["lattice_cases"],
